@@ -13,7 +13,7 @@ for pid in sorted(props):
         'thorough_cmd': 'python3 vp/check.py %s --tier thorough' % pid,
         'evidence_file': '/verif/evidence/%s.json' % pid,
         'replay_cmd_template': 'python3 vp/replay.py {path}',
-        'engine': 'V',
+        'engine': 'K' if not props[pid].get('units') and props[pid].get('extra') else 'V',
         'level_claimed': {'category': props[pid].get('level', 'proof'), 'text': t['text'], 'design_ref': t.get('design_ref', 'DESIGN.md 5')},
         'level_note': t['note'],
         'technique': t.get('technique', 'contract-based deductive verification: Verus contracts on the real functions, extracted mechanically each run'),
